@@ -28,6 +28,19 @@ Theorem C14_derives_everywhere : forall T e, named e ->
   forall x, In x (s_derives (sp_settings T)) -> In x (derives_of T e).
 Proof. exact extra_derives_everywhere. Qed.
 
+(* derive strings are identified only when EQUAL AS STRINGS (strings_to_derives collects a
+   BTreeSet<&str>): a requested derive is in the list, next to any built-in derive that merely shares
+   its last path segment (`::rkyv::Serialize` and `::serde::Serialize`, `::stable_hash::Hash` and
+   `Hash`), each exactly once *)
+Theorem C14_derives_are_full_paths : forall T e, named e ->
+  (forall x, In x (derives_of T e) <->
+             In x (builtin_derives T e) \/ In x (s_derives (sp_settings T)) \/ In x (e_derives e)) /\
+  NoDup (derives_of T e) /\
+  (forall x y, (In x (s_derives (sp_settings T)) \/ In x (e_derives e)) -> In y (builtin_derives T e) -> x <> y ->
+               In x (derives_of T e) /\ In y (derives_of T e) /\
+               exists l1 l2 l3, (derives_of T e = l1 ++ x :: l2 ++ y :: l3 \/ derives_of T e = l1 ++ y :: l2 ++ x :: l3)).
+Proof. exact derives_are_full_paths. Qed.
+
 (* ---- patch: every named constructor stores type_patch's result (type_entry.rs:293..510) *)
 Theorem C14_patch_derives : forall T m n sh p x,
   assoc n m = Some p -> In x (pa_derives p) -> In x (derives_of T (new_named m n sh)).
@@ -285,6 +298,13 @@ Example ex_map_type_and_skip_path :
   option_map (derives_of ex_sigma) (get ex_sigma 11%N) =
     Some (map u ["::serde::Deserialize"; "::serde::Serialize"; "Clone"; "Debug"; "Eq"; "PartialEq"]%string).
 Proof. repeat split; vm_compute; reflexivity. Qed.
+
+Example ex_colliding_last_segments :
+  derives_of (mkSpace [] 0%N (mkSettings None [u "::rkyv::Serialize"; u "::stable_hash::Hash"] false (u "M")) false false false false [])
+             (mkEntry (DEnum (u "E") None TagExternal [mkVariant (u "a") (u "A") VSimple] false []) [u "::enum_ordinalize::Ord"]) =
+  map u ["::enum_ordinalize::Ord"; "::rkyv::Serialize"; "::serde::Deserialize"; "::serde::Serialize";
+         "::stable_hash::Hash"; "Clone"; "Copy"; "Debug"; "Eq"; "Hash"; "Ord"; "PartialEq"; "PartialOrd"]%string.
+Proof. vm_compute. reflexivity. Qed.
 
 Example ex_patch :
   new_named [(u "Foo", mkPatch (Some (u "Bar")) [u "Eq"])] (u "Foo") (NStruct None [] false) =
